@@ -731,7 +731,7 @@ pub fn fuzz_subs(_ctx: &CheckCtx) -> Vec<crate::fuzz::FuzzSub> {
 
 pub fn replay(ctx: &CheckCtx, sub: &str, case: serde_json::Value) -> Result<Option<Violation>, String> {
     if sub.starts_with("ship.") {
-        return ship_spawn(ctx, Some(&case)).map(|r| r.1);
+        return crate::ship::replay(ctx, sub, &case);
     }
     let c: Case = serde_json::from_value(case).map_err(|e| e.to_string())?;
     Ok(run_case(&c).1)
@@ -744,31 +744,23 @@ pub fn replay(ctx: &CheckCtx, sub: &str, case: serde_json::Value) -> Result<Opti
 // bin/check builds that binary (cargo profile `ship`) next to the normal one for C20; this process spawns it.
 // ------------------------------------------------------------------------------------------
 
-fn overflow_checks_on() -> bool {
-    catch_unwind(|| {
-        let x: u8 = std::hint::black_box(255);
-        std::hint::black_box(x + std::hint::black_box(1))
-    })
-    .is_err()
-}
-
 /// Body of the child process (`check C20 <tier> --seed N --ship-child`).
 pub fn ship_child(ctx: &CheckCtx) -> i32 {
-    if overflow_checks_on() || cfg!(debug_assertions) {
-        println!("SHIP {}", json!({ "error": "ship binary was built with overflow checks or debug assertions" }));
+    if let Err(e) = crate::ship::child_profile_ok() {
+        crate::ship::child_error(&e);
         return 2;
     }
     let t = ctx.tier;
     let mut found: Option<Found> = None;
-    if let Ok(c) = std::env::var("VERIF_SHIP_REPLAY") {
-        match serde_json::from_str::<Case>(&c) {
+    if let Some((_sub, case)) = crate::ship::child_replay_request() {
+        match serde_json::from_value::<Case>(case) {
             Ok(c) => {
                 if let Some(v) = run_case(&c).1 {
                     found = Some(Found { sub: "replay".into(), violation: v, case: serde_json::to_value(&c).unwrap(), replay_path: None });
                 }
             }
             Err(e) => {
-                println!("SHIP {}", json!({ "error": format!("bad replay case: {e}") }));
+                crate::ship::child_error(&format!("bad replay case: {e}"));
                 return 2;
             }
         }
@@ -793,51 +785,10 @@ pub fn ship_child(ctx: &CheckCtx) -> i32 {
             found = ctx.search("loop", loop_case(), t.pick(200, 2_000), 8, None, run_case);
         }
     }
-    let viol = found.map(|f| json!({ "sub": f.sub, "rule": f.violation.rule, "sig": f.violation.sig, "detail": f.violation.detail, "case": f.case }));
-    println!("SHIP {}", json!({ "evaluations": ctx.col.evaluations(), "distinct_nontrivial": ctx.col.distinct_nontrivial(), "violation": viol }));
+    crate::ship::child_report(ctx, found);
     0
 }
 
-/// Spawn the ship-profile binary; returns (stats, violation with its sub and case).
-fn ship_spawn(ctx: &CheckCtx, replay: Option<&serde_json::Value>) -> Result<(serde_json::Value, Option<Violation>, String, serde_json::Value), String> {
-    let exe = std::env::current_exe().map_err(|e| e.to_string())?;
-    let bin = exe.parent().and_then(|p| p.parent()).map(|p| p.join("ship").join("check")).ok_or("no target dir")?;
-    if !bin.exists() {
-        return Err(format!("ship-profile binary {} not built (bin/check builds it for C20)", bin.display()));
-    }
-    let mut cmd = std::process::Command::new(&bin);
-    cmd.args(["C20", ctx.tier.name(), "--seed", &ctx.seed.to_string(), "--ship-child"]);
-    if let Some(c) = replay {
-        cmd.env("VERIF_SHIP_REPLAY", c.to_string());
-    }
-    let out = cmd.output().map_err(|e| format!("spawning {}: {e}", bin.display()))?;
-    let text = String::from_utf8_lossy(&out.stdout);
-    let line = text.lines().rev().find_map(|l| l.strip_prefix("SHIP ")).ok_or_else(|| format!("ship binary printed no result (status {:?})", out.status))?;
-    let v: serde_json::Value = serde_json::from_str(line).map_err(|e| e.to_string())?;
-    if let Some(e) = v.get("error").and_then(|e| e.as_str()) {
-        return Err(e.to_string());
-    }
-    let viol = &v["violation"];
-    if viol.is_null() {
-        return Ok((v.clone(), None, String::new(), serde_json::Value::Null));
-    }
-    let vv = Violation::new(viol["rule"].as_str().unwrap_or("C20.ship"), format!("[build without overflow checks] {}", viol["detail"].as_str().unwrap_or("")))
-        .with_sig(format!("{}/ship-profile", viol["sig"].as_str().unwrap_or("C20.ship")));
-    Ok((v.clone(), Some(vv), format!("ship.{}", viol["sub"].as_str().unwrap_or("case")), viol["case"].clone()))
-}
-
 fn ship_check(ctx: &CheckCtx) -> Option<Found> {
-    match ship_spawn(ctx, None) {
-        Err(e) => {
-            ctx.infra_error(format!("C20 ship-profile sub-check: {e}"));
-            None
-        }
-        Ok((stats, viol, sub, case)) => {
-            ctx.col.set_sub("ship_profile", json!({
-                "what": "triple / factory / loop cases re-run in a build of harness + calloop with overflow-checks = false, debug-assertions = false",
-                "evaluations": stats["evaluations"], "distinct_nontrivial": stats["distinct_nontrivial"],
-            }));
-            viol.map(|violation| Found { sub, violation, case, replay_path: None })
-        }
-    }
+    crate::ship::check(ctx, "triple / factory / loop cases re-run in a build of harness + calloop with overflow-checks = false, debug-assertions = false")
 }
